@@ -31,8 +31,10 @@ DocSeq == << Obj(<<a_, b_, c_>>, <<Arr(<<IntV(1), IntV(2), IntV(3), IntV(2)>>), 
              Obj(<<a_, b_, c_>>, <<Obj(<<a_, c_>>, <<IntV(5), IntV(6)>>), Obj(<<b_, c_>>, <<IntV(6), IntV(5)>>), Arr(<<IntV(5)>>)>>) >>
 NDocs == Len(DocSeq)
 
-Init == /\ first \in Simple
-        /\ \E n \in 0..(MaxOperands - 1) : rest \in [1..n -> {[op |-> o, q |-> s] : o \in {"|", "&"}, s \in Simple}]
+\* (the bare root query - no selectors at all - on its own and as the left operand of one operator)
+Init == /\ \E n \in 0..(MaxOperands - 1) :
+             /\ rest \in [1..n -> {[op |-> o, q |-> s] : o \in {"|", "&"}, s \in Simple}]
+             /\ first \in Simple \cup (IF n <= 1 THEN {Q("$", <<>>)} ELSE {})
         /\ k = 0
         /\ acc = [d \in 1..NDocs |-> EvalC(first, DocSeq[d])]
 
